@@ -127,6 +127,21 @@ def handleL2 (j : Json) : Except String Json := do
     -- a Prepare that rejects what the model accepts (or the reverse) touches the expansions
     -- of the statement besides C07
     let prepDiffers : Bool := (match m.prep with | .ok _ => true | .error _ => false) != o.prepOk
+    -- a statement the model prepares (the iff-theorems of `Typed`: it is well typed) that
+    -- Prepare rejects: the expansions the properties promise for its expressions are not
+    -- produced at all; this input fails the properties of the kinds of expression it holds
+    let lost : List String :=
+      if (match m.prep with | .ok _ => true | .error _ => false) && !o.prepOk then kindProps segs else []
+    -- every input expression the reference parser reads in the text got its argument
+    -- (statements whose expressions are member inputs only)
+    let inputsCounted : Bool :=
+      if (getBool j "noParserCheck").toOption.getD false then true else
+      match parse (mkEnv q qcls.toArray) with
+      | .ok msegs =>
+        let exprs := (msegs.map (Seg.toOSeg q)).filter (·.kind != .bypass)
+        if !(o.prepOk && o.bindOk) || o.mode == "none" || !exprs.all (·.kind == .member) then true
+        else o.params.length == exprs.length
+      | .error _ => true
     let aff := (affected m o ++ (if wrongReject then ["C07"] else []) ++ parserAff ++
       (if prepDiffers then kindProps segs else [])).eraseDups
     -- hypothesis of the no-panic theorems (C18): every argument tree has the shape its type
@@ -138,10 +153,10 @@ def handleL2 (j : Json) : Except String Json := do
        ("agree", Json.bool aff.isEmpty),
        ("affects", Json.arr (aff.map Json.str).toArray),
        ("c01", Json.bool (holdsC01e2e q segs o && holdsC01exact segs o)),
-       ("c03", Json.bool ((!tagsClean tt || holdsC03 segs o) && holdsC03vals C tt segs args o && holdsC03present args o)),
+       ("c03", Json.bool ((!tagsClean tt || holdsC03 segs o) && holdsC03vals C tt segs args o && holdsC03present args o && inputsCounted && !lost.contains "C03")),
        ("c02", Json.bool (literalsVerbatim segs o)),
-       ("c04", Json.bool (holdsC04rej m o && literalsVerbatim segs o && holdsC04rows C tt segs args o)),
-       ("c05", Json.bool (!tagsClean tt || holdsC05 segs o)),
+       ("c04", Json.bool (holdsC04rej m o && literalsVerbatim segs o && holdsC04rows C tt segs args o && !lost.contains "C04")),
+       ("c05", Json.bool ((!tagsClean tt || holdsC05 segs o) && !lost.contains "C05")),
        ("c07", Json.bool (holdsC07 m o && !wrongReject)),
        ("c08", Json.bool (holdsC08 m o))])
 
